@@ -13,6 +13,7 @@ import (
 	"fmt"
 	"iter"
 	"math"
+	"os"
 	"sort"
 	"strings"
 	"sync/atomic"
@@ -51,6 +52,8 @@ type Case struct {
 	// Copies: further copies of a replica. The same series (labels incl. replica labels, samples of replica Replica) cut
 	// by cut Cut is ALSO served by store Store (e.g. sidecar + store gateway, or two gateways over differently compacted blocks).
 	Copies []Copy `json:"copies,omitempty"`
+	// TSDB: (family C) some stores are real store.TSDBStore instances over real tsdb.DB heads, see tsdb_test.go.
+	TSDB *TSDBCfg `json:"tsdb,omitempty"`
 }
 
 type Copy struct {
@@ -323,8 +326,11 @@ func encode(ss []smp) storepb.AggrChunk {
 	return storepb.AggrChunk{MinTime: ss[0].T, MaxTime: ss[len(ss)-1].T, Raw: &storepb.Chunk{Type: storepb.Chunk_XOR, Data: c.Bytes()}}
 }
 
-func (c Case) buildClients() []store.Client {
+func (c Case) buildClients(rec *frameRec) []store.Client {
 	S := c.stores()
+	if c.TSDB != nil {
+		c.validateTSDB()
+	}
 	per := make([]map[string]*fakeSeries, S)
 	for i := range per {
 		per[i] = map[string]*fakeSeries{}
@@ -363,6 +369,10 @@ func (c Case) buildClients() []store.Client {
 	}
 	var out []store.Client
 	for i := 0; i < S; i++ {
+		if c.real(i) {
+			out = append(out, c.realClient(i, rec))
+			continue
+		}
 		f := &fakeStore{supports: c.Supports, chunkPerFrame: c.ChunkPerFrame}
 		for _, fs := range per[i] {
 			// chunks of a series are sorted by min time, as stores send them
@@ -389,8 +399,8 @@ type gotSeries struct {
 	ss   []smp
 }
 
-func (c Case) run() ([]gotSeries, error) {
-	cls := c.buildClients()
+func (c Case) run(rec *frameRec) ([]gotSeries, error) {
+	cls := c.buildClients(rec)
 	strategy := store.EagerRetrieval
 	if c.Lazy {
 		strategy = store.LazyRetrieval
@@ -473,6 +483,10 @@ func gen(r *vlib.R) iter.Seq[Case] {
 	}
 	lvs := []lv{{1, false}, {2, true}, {2, false}}
 	return func(yield func(Case) bool) {
+		if os.Getenv("VERIF_C04_ONLY") == "tsdb" { // measuring aid: family C alone
+			genTSDB(r.Thorough(), yield)
+			return
+		}
 		for R := 1; R <= 3; R++ {
 			cuts := all
 			if R == 1 {
@@ -526,7 +540,10 @@ func gen(r *vlib.R) iter.Seq[Case] {
 				}
 			}
 		}
-		genCopies(r, ext, yield)
+		if !genCopies(r, ext, yield) {
+			return
+		}
+		genTSDB(r.Thorough(), yield)
 	}
 }
 
@@ -645,7 +662,13 @@ func TestCheck(t *testing.T) {
 		"(extra counters: cases_same_replica_on_several_stores, cases_dedup_off_nested_chunk_then_newer_chunk)")
 	r.Assume("stores are fakes that behave like a conforming StoreAPI (series sorted by labels, chunks by min time; with WithoutReplicaLabels support they strip the labels and re-sort); " +
 		"raw XOR float chunks; query range = exactly the sample range; penalty dedup; partial response disabled")
+	dbRoot = t.TempDir()
+	defer closeDBs()
 	vlib.ForEach(r, gen(r), func(c Case) { evalCase(r, c) })
+	r.Set("cases_real_tsdbstore", nTSDB.Load())
+	r.Set("cases_real_tsdbstore_series_in_several_frames", nFramed.Load())
+	r.Set("max_frames_per_series_from_real_tsdbstore", maxFrames.Load())
+	r.Set("tsdb_heads_built", dbCount.Load())
 	r.Set("cases_same_replica_on_several_stores", nCopies.Load())
 	r.Set("cases_dedup_off_nested_chunk_then_newer_chunk", nNestedOff.Load())
 }
@@ -653,13 +676,54 @@ func TestCheck(t *testing.T) {
 // counters for the evidence file: cases with Copies; dedup-off cases among them whose merged chunk list has a nested chunk followed by a newer one
 var nCopies, nNestedOff atomic.Int64
 
+// family C: cases with real TSDBStores; those where a real store sent one series in >= 2 frames; the largest number of frames
+var nTSDB, nFramed, maxFrames atomic.Int64
+
 func evalCase(r *vlib.R, c Case) {
 	r.Sample(c)
 	R := len(c.Cuts)
-	got, err := c.run()
+	rec := newFrameRec()
+	got, err := func() (got []gotSeries, err error) {
+		defer func() {
+			if p := recover(); p != nil {
+				if s, ok := p.(string); ok && strings.HasPrefix(s, "HARNESS-ERROR") {
+					panic(p)
+				}
+				err = fmt.Errorf("panic in the read path: %v", p)
+			}
+		}()
+		return c.run(rec)
+	}()
 	if err != nil {
-		r.Violation("select-error", err.Error(), c)
+		sig := "select-error"
+		if strings.HasPrefix(err.Error(), "panic in the read path") {
+			sig = "select-panic"
+		}
+		r.Violation(sig, err.Error(), c)
 		return
+	}
+	// family C: frames = the largest number of frames in which a real TSDBStore sent one series
+	frames := 0
+	if c.TSDB != nil {
+		nTSDB.Add(1)
+		frames = c.framesPerSeries(rec)
+		if frames >= 2 {
+			nFramed.Add(1)
+			r.Nontrivial(caseKey(c))
+		}
+		for {
+			m := maxFrames.Load()
+			if int64(frames) <= m || maxFrames.CompareAndSwap(m, int64(frames)) {
+				break
+			}
+		}
+	}
+	// narrow class suffix: a real TSDBStore sent one series in several frames
+	framed := func(sig string) string {
+		if frames >= 2 {
+			return sig + "-tsdbstore-series-in-several-frames"
+		}
+		return sig
 	}
 	if c.Dedup && R >= 2 {
 		diff := false
@@ -669,7 +733,7 @@ func evalCase(r *vlib.R, c Case) {
 			}
 		}
 		if diff {
-			r.Nontrivial(fmt.Sprintf("%+v", c))
+			r.Nontrivial(caseKey(c))
 		}
 	}
 	// copies: multiStore[k] = replica k is served by several stores with different cuts
@@ -689,7 +753,7 @@ func evalCase(r *vlib.R, c Case) {
 			anyNested = anyNested || (multiStore[k] && nested[k])
 		}
 		if anyMulti {
-			r.Nontrivial(fmt.Sprintf("%+v", c))
+			r.Nontrivial(caseKey(c))
 		}
 		if anyNested && !c.Dedup {
 			nNestedOff.Add(1)
@@ -716,9 +780,9 @@ func evalCase(r *vlib.R, c Case) {
 			gs := byLset[want]
 			switch {
 			case len(gs) == 0:
-				r.Violation("dedup-on-logical-series-missing", fmt.Sprintf("no series %s in the result: %s", want, describe()), c)
+				r.Violation(framed("dedup-on-logical-series-missing"), fmt.Sprintf("no series %s in the result: %s", want, describe()), c)
 			case len(gs) > 1:
-				r.Violation("dedup-on-logical-series-returned-more-than-once", fmt.Sprintf("%d series %s in the result: %s", len(gs), want, describe()), c)
+				r.Violation(framed("dedup-on-logical-series-returned-more-than-once"), fmt.Sprintf("%d series %s in the result: %s", len(gs), want, describe()), c)
 			case c.Identical && !eqS(gs[0].ss, c.samples(l, 0)):
 				sig := "dedup-on-identical-replicas-samples-changed"
 				if len(gs[0].ss) < nSamples {
@@ -744,12 +808,12 @@ func evalCase(r *vlib.R, c Case) {
 					// narrow class: scrape interval below the 5000 ms initial penalty of the penalty algorithm
 					sig += "-interval-below-initial-penalty"
 				}
-				r.Violation(sig, fmt.Sprintf("series %s: got %v want %v", want, gs[0].ss, c.samples(l, 0)), c)
+				r.Violation(framed(sig), fmt.Sprintf("series %s: got %v want %v", want, gs[0].ss, c.samples(l, 0)), c)
 			}
 			delete(byLset, want)
 		}
 		for extra := range byLset {
-			r.Violation("dedup-on-unexpected-series", fmt.Sprintf("series %s returned (replica labels %v should be removed): %s", extra, c.replicaLabelNames(), describe()), c)
+			r.Violation(framed("dedup-on-unexpected-series"), fmt.Sprintf("series %s returned (replica labels %v should be removed): %s", extra, c.replicaLabelNames(), describe()), c)
 		}
 		return
 	}
@@ -759,9 +823,9 @@ func evalCase(r *vlib.R, c Case) {
 			gs := byLset[want]
 			switch {
 			case len(gs) == 0:
-				r.Violation("dedup-off-replica-series-missing", fmt.Sprintf("no series %s in the result: %s", want, describe()), c)
+				r.Violation(framed("dedup-off-replica-series-missing"), fmt.Sprintf("no series %s in the result: %s", want, describe()), c)
 			case len(gs) > 1:
-				r.Violation("dedup-off-replica-series-returned-more-than-once", fmt.Sprintf("%d series %s: %s", len(gs), want, describe()), c)
+				r.Violation(framed("dedup-off-replica-series-returned-more-than-once"), fmt.Sprintf("%d series %s: %s", len(gs), want, describe()), c)
 			case !eqS(gs[0].ss, c.samples(l, k)):
 				sig := "dedup-off-replica-samples-changed"
 				if multiStore[k] {
@@ -772,12 +836,12 @@ func evalCase(r *vlib.R, c Case) {
 						sig += "-nested-chunk-then-newer-chunk"
 					}
 				}
-				r.Violation(sig, fmt.Sprintf("series %s: got %v want %v", want, gs[0].ss, c.samples(l, k)), c)
+				r.Violation(framed(sig), fmt.Sprintf("series %s: got %v want %v", want, gs[0].ss, c.samples(l, k)), c)
 			}
 			delete(byLset, want)
 		}
 	}
 	for extra := range byLset {
-		r.Violation("dedup-off-unexpected-series", fmt.Sprintf("series %s returned: %s", extra, describe()), c)
+		r.Violation(framed("dedup-off-unexpected-series"), fmt.Sprintf("series %s returned: %s", extra, describe()), c)
 	}
 }
